@@ -35,3 +35,25 @@ RULE = ("explicit-state search over all orders of external events (arrivals, I/O
 ASSUMPTIONS = ["asyncio FIFO ready queue is kept; nondeterminism = when external events arrive relative to loop iterations",
                "peers answer every request with exactly one well-framed response (token echo)",
                "simulated backend follows the NetworkBackend contract as the three real backends do (DESIGN.md 2.4)"]
+
+
+def extra(tier, seed, workers, only):
+    """Sequential histories: a request that failed at any I/O step (every fault kind, also with an early response and a
+    chunked upload), followed by another request to the same origin, which must get its own answer on a clean or new connection."""
+    if only:
+        return None, {}
+    from .. import scen
+    from ..engine import make_spec
+    specs = []
+    cts = ["h11", "h11tls", "fwd", "tunnel", "socks"] if tier == "quick" else [c for c in scen.CONN_TYPES]
+    for ct in cts:
+        for variant in ("sync", "async"):
+            for early in (False, True):
+                for body in ("bytes", "iter"):
+                    if scen.CONN_TYPES[ct]["proto"] == "h2" and early:
+                        continue
+                    for warm in (False, True):
+                        specs.append(make_spec("mc.props.seqfault", "SeqFaultHarness", ct=ct, variant=variant, method="POST", warm=warm,
+                                               early=early, body=body))
+    st = engine.explore_many(specs, workers=workers, bound=1, seed=seed, max_violations=100)
+    return st, {"sequential_fault_histories": len(specs), "executions": st.evaluations}
